@@ -194,14 +194,52 @@ func ZZ_C12_binary_str() {
 	for i := 0; i < k; i++ {
 		c := digits[i]
 		rt.Assume(c != '_')
+		if rt.ParamOr("bits", 0) == 1 {
+			// long literals: every character a binary digit (9 and more significant bits, literals
+			// longer than an int64, leading zeros)
+			rt.Assume(rt.Or(c == '0', c == '1'))
+		}
 		if c == '0' || c == '1' {
-			val = val*2 + int(c-'0')
+			if val < 256 {
+				val = val*2 + int(c-'0')
+			}
 		} else {
 			wellFormed = false
 		}
 	}
+	// a concrete run of digits in front of the symbolic ones: "1010..." (9 and more significant bits,
+	// literals longer than an int64) or zeros (long literals of a small value)
+	prefix := ""
+	for i := 0; i < rt.ParamOr("pre", 0); i++ {
+		d := (i + 1) % 2
+		if rt.ParamOr("pz", 0) == 1 {
+			d = 0
+		}
+		prefix += string(rune('0' + d))
+	}
+	if prefix != "" {
+		pv := 0
+		for i := 0; i < len(prefix); i++ {
+			if pv < 256 {
+				pv = pv*2 + int(prefix[i]-'0')
+			}
+		}
+		// value of prefix followed by the k symbolic digits, saturating above 255
+		v2, ok2 := pv, true
+		for i := 0; i < k; i++ {
+			c := digits[i]
+			if c == '0' || c == '1' {
+				if v2 < 256 {
+					v2 = v2*2 + int(c-'0')
+				}
+			} else {
+				ok2 = false
+			}
+		}
+		val, wellFormed = v2, ok2
+	}
 	var node ItemNode
-	panicked := rt.Try(func() { node = NewBinaryNode("0b" + digits) })
+	panicked := rt.Try(func() { node = NewBinaryNode("0b" + prefix + digits) })
 	if !wellFormed || val > 255 {
 		rt.Assert(panicked, "binary-string:malformed-or-overflow-refused")
 	} else {
